@@ -5,13 +5,17 @@
 //!
 //! Rectifier case:  `R <fmt> <nch> ; v.. , v.. , ...`      (one frame per ','-item)
 //!   per frame three observations: `10 full..` `11 pos..` `12 neg..` (or `8 code` for a panic)
-//! Envelope case:   `E <fmt> <nch> <det> <window> <attack f32 bits> <release f32 bits> <mode> ; op , op ...`
+//! Envelope case:   `E <fmt> <nch> <det> <window> <attack f32 bits> <release f32 bits> <mode> <ctor> ; op , op ...`
 //!   det 0 full wave, 1 positive half wave, 2 negative half wave, 3 rms(window)
+//!   ctor (absent = 0): 0 the named constructor (Detector::peak / peak_positive_half_wave /
+//!        peak_negative_half_wave / rms), 1 Detector::peak_from_rectifier(R, a, r) (rms:
+//!        Detector::new(Rms::new(window), a, r)), 2 Detector::new(Peak::from(R), a, r) (rms: as 1)
 //!   mode 0 Detector::next, 1 signal::from_iter(frames).detect_envelope(detector),
 //!        2 signal::from_interleaved_samples_iter(samples).detect_envelope(detector)
 //!        (adaptor modes: the source is FINITE = the `f` frames of the case; setters through the adaptor)
 //!   ops: `f v..` frame, `a bits` set_attack_frames, `r bits` set_release_frames,
 //!        `x` (adaptor modes, only after the last `f`) one more pull from the exhausted source,
+//!        `k` the detector (mode 0) / the adaptor is replaced by its clone(); observation `26`
 //!        `p v..` (last op) adaptor modes: into_parts(), then the returned detector gets frame v;
 //!                mode 0: the detector itself gets frame v
 //!   first observation `22 ga gr ra rr`: attack/release gains in use (from the Debug output of the
@@ -21,6 +25,7 @@
 //!   `24 exh env.. det..` with exh = is_exhausted() before the pull; `p`: `25 ga gr exh env.. det..`
 //!   (gains of the returned detector from its Debug output, exh = is_exhausted() of the returned source,
 //!   0 in mode 0).
+use dasp_envelope::detect::Peak;
 use dasp_envelope::{Detect, Detector};
 use dasp_frame::Frame;
 use dasp_peak::{FullWave, NegativeHalfWave, PositiveHalfWave, Rectifier};
@@ -159,6 +164,7 @@ enum Op {
     Release(f32),
     Pull,
     Parts(Vec<i128>),
+    CloneIt,
 }
 
 /// harness glue: one type for the two finite sources, so that one DetectEnvelope type serves both
@@ -259,6 +265,22 @@ where
                 }
                 break;
             }
+            Op::CloneIt => {
+                match (det.take(), sig.take()) {
+                    (Some(d), _) => {
+                        let c = d.clone();
+                        drop(d);
+                        det = Some(c);
+                    }
+                    (None, Some(sg)) => {
+                        let c = sg.clone();
+                        drop(sg);
+                        sig = Some(c);
+                    }
+                    _ => unreachable!(),
+                }
+                out.push(obs(26, &[]));
+            }
             Op::Attack(x) => {
                 a = *x;
                 let g = match (&mut det, &mut sig) {
@@ -328,7 +350,7 @@ where
     out
 }
 
-fn env_frame<F>(det: i64, window: usize, attack: f32, release: f32, mode: i64, ops: &[Op]) -> Vec<String>
+fn env_frame<F>(det: i64, ctor: i64, window: usize, attack: f32, release: f32, mode: i64, ops: &[Op]) -> Vec<String>
 where
     F: Frame + Debug,
     F::Sample: Enc,
@@ -338,18 +360,41 @@ where
     <F::Float as Frame>::Sample: Enc,
 {
     match det {
-        0 => run_env::<F, _>(|a, r| Detector::peak(a, r), dasp_envelope::detect::Peak::full_wave(), attack, release, mode, ops),
-        1 => run_env::<F, _>(|a, r| Detector::peak_positive_half_wave(a, r), dasp_envelope::detect::Peak::positive_half_wave(), attack, release, mode, ops),
-        2 => run_env::<F, _>(|a, r| Detector::peak_negative_half_wave(a, r), dasp_envelope::detect::Peak::negative_half_wave(), attack, release, mode, ops),
+        0 => run_env::<F, _>(
+            |a, r| match ctor {
+                0 => Detector::peak(a, r),
+                1 => Detector::peak_from_rectifier(FullWave, a, r),
+                _ => Detector::new(Peak::from(FullWave), a, r),
+            },
+            Peak::full_wave(), attack, release, mode, ops),
+        1 => run_env::<F, _>(
+            |a, r| match ctor {
+                0 => Detector::peak_positive_half_wave(a, r),
+                1 => Detector::peak_from_rectifier(PositiveHalfWave, a, r),
+                _ => Detector::new(Peak::from(PositiveHalfWave), a, r),
+            },
+            Peak::positive_half_wave(), attack, release, mode, ops),
+        2 => run_env::<F, _>(
+            |a, r| match ctor {
+                0 => Detector::peak_negative_half_wave(a, r),
+                1 => Detector::peak_from_rectifier(NegativeHalfWave, a, r),
+                _ => Detector::new(Peak::from(NegativeHalfWave), a, r),
+            },
+            Peak::negative_half_wave(), attack, release, mode, ops),
         3 => {
             let w = || ring_buffer::Fixed::from(vec![<F::Float as Frame>::EQUILIBRIUM; window]);
-            run_env::<F, _>(|a, r| Detector::rms(w(), a, r), Rms::new(w()), attack, release, mode, ops)
+            run_env::<F, _>(
+                |a, r| match ctor {
+                    0 => Detector::rms(w(), a, r),
+                    _ => Detector::new(Rms::new(w()), a, r),
+                },
+                Rms::new(w()), attack, release, mode, ops)
         }
         _ => panic!("detector kind"),
     }
 }
 
-fn env_fmt<S>(nch: usize, det: i64, window: usize, attack: f32, release: f32, mode: i64, ops: &[Op]) -> Vec<String>
+fn env_fmt<S>(nch: usize, det: i64, ctor: i64, window: usize, attack: f32, release: f32, mode: i64, ops: &[Op]) -> Vec<String>
 where
     S: Enc + Frame<Sample = S>,
     <S as Sample>::Signed: Enc,
@@ -360,10 +405,10 @@ where
     <<S as Frame>::Float as Frame>::Sample: Enc,
 {
     match nch {
-        0 => env_frame::<S>(det, window, attack, release, mode, ops),
-        1 => env_frame::<[S; 1]>(det, window, attack, release, mode, ops),
-        2 => env_frame::<[S; 2]>(det, window, attack, release, mode, ops),
-        3 => env_frame::<[S; 3]>(det, window, attack, release, mode, ops),
+        0 => env_frame::<S>(det, ctor, window, attack, release, mode, ops),
+        1 => env_frame::<[S; 1]>(det, ctor, window, attack, release, mode, ops),
+        2 => env_frame::<[S; 2]>(det, ctor, window, attack, release, mode, ops),
+        3 => env_frame::<[S; 3]>(det, ctor, window, attack, release, mode, ops),
         _ => panic!("channel count"),
     }
 }
@@ -404,6 +449,7 @@ fn main() {
             let attack = f32::from_bits(h[5].parse::<u32>().unwrap());
             let release = f32::from_bits(h[6].parse::<u32>().unwrap());
             let mode: i64 = h[7].parse().unwrap();
+            let ctor: i64 = if h.len() > 8 { h[8].parse().unwrap() } else { 0 };
             let ops: Vec<Op> = items
                 .iter()
                 .map(|t| match t[0] {
@@ -411,17 +457,18 @@ fn main() {
                     "a" => Op::Attack(f32::from_bits(t[1].parse::<u32>().unwrap())),
                     "r" => Op::Release(f32::from_bits(t[1].parse::<u32>().unwrap())),
                     "x" => Op::Pull,
+                    "k" => Op::CloneIt,
                     "p" => Op::Parts(i128s(&t[1..])),
                     other => panic!("unknown op {}", other),
                 })
                 .collect();
             match fmt {
-                0 => env_fmt::<i8>(nch, det, window, attack, release, mode, &ops),
-                1 => env_fmt::<i16>(nch, det, window, attack, release, mode, &ops),
-                6 => env_fmt::<u8>(nch, det, window, attack, release, mode, &ops),
-                7 => env_fmt::<u16>(nch, det, window, attack, release, mode, &ops),
-                12 => env_fmt::<f32>(nch, det, window, attack, release, mode, &ops),
-                13 => env_fmt::<f64>(nch, det, window, attack, release, mode, &ops),
+                0 => env_fmt::<i8>(nch, det, ctor, window, attack, release, mode, &ops),
+                1 => env_fmt::<i16>(nch, det, ctor, window, attack, release, mode, &ops),
+                6 => env_fmt::<u8>(nch, det, ctor, window, attack, release, mode, &ops),
+                7 => env_fmt::<u16>(nch, det, ctor, window, attack, release, mode, &ops),
+                12 => env_fmt::<f32>(nch, det, ctor, window, attack, release, mode, &ops),
+                13 => env_fmt::<f64>(nch, det, ctor, window, attack, release, mode, &ops),
                 _ => panic!("envelope format"),
             }
         };
